@@ -366,8 +366,9 @@ func (idx *Index) DiffWithTree(tree *object.Tree) ([]*DiffEntry, error) {
 
 	// check if there are new files
 	for _, entry := range idx.Entries {
-		_, isFound := object.GetNode(tree.Children, string(entry.Path))
-		if !isFound {
+		// a staged file is new unless the tree has a file (not a directory) at that path
+		node, isFound := object.GetNode(tree.Children, string(entry.Path))
+		if !isFound || len(node.Children) > 0 {
 			diffEntries = append(diffEntries, &DiffEntry{
 				Dt:    diffNew,
 				Entry: entry,
